@@ -3,6 +3,11 @@
 //! Exit 0: property held on everything explored; 1: VIOLATION line(s) printed; 2: machinery failure.
 
 mod common;
+mod inputs;
+mod p01_roundtrip;
+mod p02_refcodec;
+mod refmodel;
+mod universe;
 mod p17_timestamp;
 mod p18_fixedpoint;
 
@@ -61,6 +66,8 @@ fn main() {
     ctx.replay = replay;
     let r = std::panic::catch_unwind(std::panic::AssertUnwindSafe(|| {
         match prop.as_str() {
+            "C01" => p01_roundtrip::run(&ctx),
+            "C02" => p02_refcodec::run(&ctx),
             "C17" => p17_timestamp::run(&ctx),
             "C18" => p18_fixedpoint::run(&ctx),
             _ => {
